@@ -159,18 +159,34 @@ class Cfg:
             return set()
         return self.lang_upto(n).get(self.start, set())
 
-    def all_words_if_finite(self, cap=6):
-        """the whole language of a finite-language grammar (caller checked); the
-        longest word of a finite CFL over k useful variables is bounded, we simply
-        grow n until two consecutive doublings add nothing"""
-        n = 4
-        prev = self.words_upto(n)
-        while True:
-            n *= 2
-            cur = self.words_upto(n)
-            if cur == prev or n > 64:
-                return cur
-            prev = cur
+    def useful_subgrammar(self):
+        use = self.useful_vars()
+        return Cfg(self.start, [(h, b) for h, b in self.prods
+                                if h in use and all((not isvar(x)) or x in use for x in b)])
+
+    def all_words_if_finite(self):
+        """the whole language of a finite-language grammar (caller checked is_finite()).  The longest
+        word is found by longest-path relaxation over the useful sub-grammar (no growing cycle exists
+        there, so |V|+1 rounds suffice), then the language is enumerated up to that length -- on the
+        useful sub-grammar only, since useless variables may have infinite languages."""
+        sub = self.useful_subgrammar()
+        if sub.is_empty():
+            return set()
+        ml = {v: None for v in sub.variables}
+        for _ in range(len(sub.variables) + 2):
+            for h, b in sub.prods:
+                tot = 0
+                for x in b:
+                    if isvar(x):
+                        if ml[x] is None:
+                            tot = None
+                            break
+                        tot += ml[x]
+                    else:
+                        tot += 1
+                if tot is not None and (ml[h] is None or tot > ml[h]):
+                    ml[h] = tot
+        return sub.words_upto(ml[sub.start] or 0)
 
     def digest(self):
         return (self.start, tuple(self.prods))
